@@ -21,6 +21,7 @@ if TYPE_CHECKING:
 
 from exabgp.bgp.message.action import Action
 from exabgp.bgp.message.update.nlri.nlri import _UNPARSED, NLRI
+from exabgp.logger import lazymsg, log
 from exabgp.protocol.family import AFI, SAFI
 from exabgp.protocol.ip import IP
 from exabgp.util.types import Buffer
@@ -384,7 +385,10 @@ class MPNLRICollection:
                 # Check if adding this NLRI would exceed maximum
                 if self._attr_len(len(payload) + len(packed_nlri)) > maximum:
                     if len(payload) == header_length:
-                        raise RuntimeError('NLRI too large for attribute size limit')
+                        # not even this one NLRI fits next to the attributes: as for IPv4 NLRI, say so and
+                        # send nothing for it, rather than raise in the middle of the sender loop
+                        log.critical(lazymsg('update.pack.error reason=attributes_too_large'), 'parser')
+                        continue
                     # Yield current payload and start new one
                     yield self._attribute_header(self._CODE_MP_REACH_NLRI, len(payload)) + payload
                     payload = header + packed_nlri
@@ -432,7 +436,8 @@ class MPNLRICollection:
             # Check if adding this NLRI would exceed maximum
             if self._attr_len(len(payload) + len(packed_nlri)) > maximum:
                 if len(payload) == header_length:
-                    raise RuntimeError('NLRI too large for attribute size limit')
+                    log.critical(lazymsg('update.pack.error reason=attributes_too_large'), 'parser')
+                    continue
                 # Yield current payload and start new one
                 yield self._attribute_header(self._CODE_MP_UNREACH_NLRI, len(payload)) + payload
                 payload = header + packed_nlri
